@@ -402,8 +402,21 @@ func (c08) Gen(env *Env, seed uint64, tier string, i int) *Case {
 	}
 	if c.Sub == "op-fault" {
 		c.Flags = Flags{Verbose: r.Chance(1, 3), SkipImport: r.Chance(1, 4)}
-		if r.Chance(1, 4) {
+		if r.Chance(1, 3) {
 			c.Flags.Print = true
+		} else if r.Chance(1, 6) {
+			c.Flags.Diff = true
+		}
+		if r.Chance(1, 3) {
+			// a longer queue of files behind the one that is struck
+			for j := 0; j < r.Range(6, 14); j++ {
+				if r.Chance(1, 2) && len(inputs) > 0 {
+					c.AddFile(fmt.Sprintf("q%02d_copy.go", j), inputs[r.Intn(len(inputs))].Data, "input", nil, "")
+				} else {
+					c.AddFile(fmt.Sprintf("q%02d_plain.go", j), []byte(fmt.Sprintf("package zz\n\nfunc plain%d() int { return %d }\n", j, j)), "other", nil, "")
+				}
+			}
+			c.Extra["long_queue"] = "1"
 		}
 		c.Extra["rng"] = fmt.Sprint(r.Uint64())
 	}
